@@ -1,3 +1,3 @@
-(* Proofs about the scheduler model. *)
-From Coq Require Import Lia.
+(* Proofs about the scheduler model: re-exports the proof files. *)
 From VF Require Export Sched.Spec.
+From VF Require Export Sched.ProofsAssoc Sched.ProofsBasic Sched.ProofsFrame Sched.ProofsFoot.
